@@ -322,6 +322,8 @@ def _check_batch(acc, method, shape, vals, bs, nseeds, seed0):
             # conformance: observe the real tie choices, replay them in the substituted environment
             tp = T.Tape()
             ro = call(np.random.RandomState(s), tp, "observe")
+            if tp.unobservable:
+                continue  # the real primitive returned a non-optimum: reported by the direct check above, not replayable
             rr = call(np.random.RandomState(s), T.Tape(tp.choices), "substitute")
             acc.traces_validated += 1
             if isinstance(ro, Exception) or isinstance(rr, Exception) or not (
